@@ -77,6 +77,9 @@ CopyCellsPrivate(ob, c, A) ==
 
 \* C18 "has no parent"
 CopyParentless(ob, c) == ob.parent[c] = None
+\* ... unless the caller asks for one with the keyword parent=<collection> (par = None: not asked): then the copy is a
+\* member of exactly that collection
+CopyParentIs(ob, c, par) == ob.parent[c] = par /\ (par # None => OColl(ob, par) /\ Count(ob.children[par], c) = 1)
 
 \* the tree restricted to a set of objects (links leaving the set are kept as they are, so that
 \* ForestInv rejects a child or parent outside the set)
@@ -88,6 +91,8 @@ TreeOf(ob, S) == [kind |-> [x \in S |-> ob.kind[x]], parent |-> [x \in S |-> ob.
 \* C18 "copies its whole subtree with parent/children links consistent inside the copy":
 \* ren maps every object below the original o to its copy; the copy is a forest of its own, consists of new
 \* objects only, and is link-for-link the image of the original subtree
+\* the copied subtree seen on its own: the link of its root to a collection the caller asked for is judged apart
+CopyTree(post, T, r) == LET t == TreeOf(post, T) IN [t EXCEPT !.parent[r] = None]
 CopySubtreeForest(pre, post, o, ren) ==
     LET S == OSub(pre, o)
         T == {ren[x] : x \in S}
@@ -96,7 +101,7 @@ CopySubtreeForest(pre, post, o, ren) ==
        /\ T \cap OObjs(pre) = {}
        /\ T \subseteq OObjs(post)
        /\ OSub(post, ren[o]) = T
-       /\ ForestInv(TreeOf(post, T))
+       /\ ForestInv(CopyTree(post, T, ren[o]))
        /\ \A x \in S : /\ post.kind[ren[x]] = pre.kind[x]
                        /\ (x # o => post.parent[ren[x]] = ren[pre.parent[x]])
                        /\ (pre.kind[x] = "C" =>
@@ -107,7 +112,7 @@ CopyForestClause(pre, post, o, ren) ==
         T == {ren[x] : x \in S}
     IN IF ~(DOMAIN ren = S /\ T \cap OObjs(pre) = {} /\ T \subseteq OObjs(post)) THEN "CopyObjectsNew"
        ELSE IF OSub(post, ren[o]) # T THEN "CopySubtreeSameMembers"
-       ELSE IF ~ForestInv(TreeOf(post, T)) THEN "CopyForest_" \o ForestClause(TreeOf(post, T))
+       ELSE IF ~ForestInv(CopyTree(post, T, ren[o])) THEN "CopyForest_" \o ForestClause(CopyTree(post, T, ren[o]))
        ELSE IF ~CopySubtreeForest(pre, post, o, ren) THEN "CopyLinksImage" ELSE "ok"
 
 \* everything observable about one object except the alias graph
@@ -119,6 +124,16 @@ ObjObs(ob, x) == [kind |-> ob.kind[x], parent |-> ob.parent[x], pub |-> ob.pub[x
 \* C18 "leaves the original tree untouched": copy() is a stuttering step on everything that existed before
 Unchanged(pre, post, S) == \A x \in S : x \in OObjs(post) /\ ObjObs(post, x) = ObjObs(pre, x)
 OriginalUntouched(pre, post) == Unchanged(pre, post, OObjs(pre))
+\* the collection given as parent=... gains the copy as its last child (typed lists alike) and is otherwise as before
+ParentJoined(pre, post, par, c) ==
+    LET a == ObjObs(pre, par) b == ObjObs(post, par) k == post.kind[c] IN
+    b = [a EXCEPT !.children = Append(@, c),
+                  !.srcs = IF k = "S" THEN Append(@, c) ELSE @,
+                  !.sens = IF k = "X" THEN Append(@, c) ELSE @,
+                  !.colls = IF k = "C" THEN Append(@, c) ELSE @]
+\* a copy() that is REJECTED (an invalid keyword value) leaves the whole observed heap as it was: the original tree, a
+\* collection given as parent, the caller's arguments
+RejectedCopyUntouched(pre, post) == Unchanged(pre, post, OObjs(pre)) /\ OObjs(post) = OObjs(pre)
 \* Caller-owned ARGUMENT nodes: the containers (style dictionaries, arrays, lists) handed to copy() as keyword values are
 \* cells of the caller's heap.  "keyword arguments override attributes of the copy only": copy() leaves them as they
 \* were (so that a later copy made with the same containers does not inherit an override given to an earlier one) ...
@@ -310,18 +325,22 @@ CopyWithArgsF(st, o, a, slots, extra, lab, ren, newc, shallow, keepPar, aliasSlo
                THEN [st2 EXCEPT !.val[st.refs[a][StySlot]] = extra] ELSE st2
     IN st3
 
+\* keyword parent=par: the finished copy is added to that collection (the last thing copy() does)
+CopyIntoF(st, c, par) == IF par = None THEN st ELSE HAddF(st, par, c, TRUE).st
+
 (***************************************************************************)
 (* All C18 clauses about one copy step, on observations; returns the name  *)
 (* of the first failing clause or "ok".                                    *)
 (***************************************************************************)
-CopyClause(pre, post, o, ren, ovr, free, A) ==
+CopyClause(pre, post, o, ren, ovr, free, A, par) ==
     LET c == ren[o]
         fc == CopyForestClause(pre, post, o, ren)
     IN IF fc # "ok" THEN fc
-       ELSE IF ~CopyParentless(post, c) THEN "CopyParentless"
+       ELSE IF ~CopyParentIs(post, c, par) THEN "CopyParentless"
        ELSE IF Shared(post, o, c) # {} THEN "NoSharing"
        ELSE IF ~CopyCellsPrivate(post, c, A) THEN "CopyCellsPrivate"
-       ELSE IF ~Unchanged(pre, post, OObjs(pre) \ A) THEN "OriginalUntouched"
+       ELSE IF ~Unchanged(pre, post, (OObjs(pre) \ A) \ {par}) THEN "OriginalUntouched"
+       ELSE IF par # None /\ ~ParentJoined(pre, post, par, c) THEN "OriginalUntouched"
        ELSE IF ~ArgumentsUntouched(pre, post, A) THEN "ArgumentsUntouched"
        ELSE IF ~EqualProjection(pre, post, o, ren, free) THEN "EqualProjection"
        ELSE IF ~OverridesApplied(post, c, [a \in DOMAIN ovr \ {"label"} |-> ovr[a]]) THEN "OverridesOnlyCopy"
